@@ -51,13 +51,28 @@ Definition two63 : Z := 2 ^ 63.
 Definition two64 : Z := 2 ^ 64.
 Definition flt_canon (u : Z) : Z := if u =? two63 then 0 else u.
 Definition flt_of_bytes (bs : list Z) : Z := flt_canon (le_val bs).
-(* int -> float64 conversion (exact for |i| < 2^53, truncating above) *)
+(* int -> float64 conversion as numpy casts (round to nearest, ties to even; exact for |i| <= 2^53) *)
 Definition f64_of_int (i : Z) : Z :=
   if i =? 0 then 0 else
   let a := Z.abs i in
   let e := Z.log2 a in
-  let mant := if e <=? 52 then (a - 2 ^ e) * 2 ^ (52 - e) else (a - 2 ^ e) / 2 ^ (e - 52) in
-  ((if i <? 0 then two63 else 0) + (1023 + e) * 2 ^ 52 + mant) mod two64.
+  let sig :=                                  (* the 53-bit significand, possibly 2^53 after rounding up *)
+    if e <=? 52 then a * 2 ^ (52 - e)
+    else let sh := e - 52 in
+         let q := a / 2 ^ sh in let r := a mod 2 ^ sh in let half := 2 ^ (sh - 1) in
+         if (half <? r) || ((r =? half) && Z.odd q) then q + 1 else q in
+  ((if i <? 0 then two63 else 0) + (1023 + e) * 2 ^ 52 + (sig - 2 ^ 52)) mod two64.
+(* exact comparison of an integer with the (finite) double of bit pattern [bits]:
+   the double is (-1)^s * M * 2^k *)
+Definition flt_eq_int (bits i : Z) : bool :=
+  let s := bits / two63 in
+  let E := (bits / 2 ^ 52) mod 2 ^ 11 in
+  let m := bits mod 2 ^ 52 in
+  if E =? 2047 then false else
+  let M := if E =? 0 then m else 2 ^ 52 + m in
+  let k := (if E =? 0 then 1 else E) - 1075 in
+  let a := if s =? 1 then - i else i in
+  if 0 <=? k then a =? M * 2 ^ k else a * 2 ^ (- k) =? M.
 
 (* unicode strings: UCS4 code points, 4 bytes each; trailing NULs are padding *)
 Fixpoint cps_of_bytes (bs : list Z) : list Z :=
@@ -98,14 +113,15 @@ Definition cell_val (c : cell) : val :=
   | KFlt => VFlt (flt_of_bytes (cbytes c))
   | KStr => VStr (str_of_bytes (cbytes c))
   end.
-(* equality by value, as numpy's == / np.isin see it (ints are exact, an int
-   meets a float through the int -> float64 conversion, strings ignore padding) *)
+(* equality by value: ints exactly, an int and a float exactly (as rational numbers), floats by
+   canonical bit pattern, strings up to padding.  numpy compares an int64 with a float64 after
+   converting the int to float64; the two notions agree on the pairs accepted by [conv_ok] below *)
 Definition val_eqb (a b : val) : bool :=
   match a, b with
   | VInt x, VInt y => x =? y
   | VFlt x, VFlt y => x =? y
-  | VInt x, VFlt y => f64_of_int x =? y
-  | VFlt x, VInt y => x =? f64_of_int y
+  | VInt x, VFlt y => flt_eq_int y x
+  | VFlt x, VInt y => flt_eq_int x y
   | VStr x, VStr y => zlist_eqb x y
   | _, _ => false
   end.
@@ -130,6 +146,17 @@ Definition cast (K : kind) (W : nat) (c : cell) : list Z :=
   | _, _ => []
   end.
 Definition compat (a b : cell) : bool := Bool.eqb (numeric (ckind a)) (numeric (ckind b)).
+(* the int -> float64 conversion does not blur this pair: comparing after the conversion (what numpy
+   does) and comparing exactly give the same answer.  False only for an integer beyond 2^53 next to
+   a double that is its rounded image without being equal to it. *)
+Definition conv_ok (a b : cell) : bool :=
+  match ckind a, ckind b with
+  | KInt, KFlt => Bool.eqb (f64_of_int (int_of_bytes (cbytes a)) =? flt_of_bytes (cbytes b))
+                           (flt_eq_int (flt_of_bytes (cbytes b)) (int_of_bytes (cbytes a)))
+  | KFlt, KInt => Bool.eqb (flt_of_bytes (cbytes a) =? f64_of_int (int_of_bytes (cbytes b)))
+                           (flt_eq_int (flt_of_bytes (cbytes a)) (int_of_bytes (cbytes b)))
+  | _, _ => true
+  end.
 Definition cast_pair (ab : cell * cell) : list Z * list Z :=
   let '(a, b) := ab in
   let '(K, W) := promote (ckind a) (cwidth a) (ckind b) (cwidth b) in
@@ -317,8 +344,17 @@ Definition own_okb (t : table) (o : option (list bool)) : bool :=
   match o with None => true | Some m => Nat.eqb (length m) (length t) end.
 Definition cids_okb (t : table) (cs : list nat) : bool :=
   negb (Nat.eqb (length cs) 0) && forallb (fun c => match t with [] => true | _ => Nat.ltb c (ncols t) end) cs.
+Definition mixed_num (a b : cell) : bool :=
+  match ckind a, ckind b with KInt, KFlt => true | KFlt, KInt => true | _, _ => false end.
 Definition pair_okb (ta tb : table) (ca cb : nat) : bool :=
-  match ta, tb with ra :: _, rb :: _ => compat (key ra ca) (key rb cb) | _, _ => true end.
+  match ta, tb with
+  | ra :: _, rb :: _ =>
+    compat (key ra ca) (key rb cb) &&
+    (if mixed_num (key ra ca) (key rb cb)
+     then forallb (fun r => forallb (fun r' => conv_ok (key r ca) (key r' cb)) tb) ta
+     else true)
+  | _, _ => true
+  end.
 Definition op_okb (ts : list table) (o : op) : bool :=
   match o with
   | OJoin a b ca cb =>
